@@ -537,8 +537,11 @@ impl FromStr for Data {
                 _ => unreachable!(),
             };
             let bytes = &bytes[1..];
-            let (bytes, dst_bytes) = bytes.split_at(bytes.len() - 2);
-            let dst = Coord::from_str(str::from_utf8(dst_bytes).unwrap())?;
+            // The destination may be missing or cut through a multi-byte character; neither
+            // must panic.
+            let (bytes, dst_bytes) = bytes.split_at(bytes.len().saturating_sub(2));
+            let dst =
+                Coord::from_str(str::from_utf8(dst_bytes).map_err(|_| RawParseError::Syntax)?)?;
             let (file, bytes) = match bytes.first() {
                 Some(b @ b'a'..=b'h') => (File::from_char(*b as char), &bytes[1..]),
                 _ => (None, bytes),
@@ -593,7 +596,7 @@ impl FromStr for Data {
         }
 
         let (bytes, dst_bytes) = bytes.split_at(bytes.len() - 2);
-        let dst = Coord::from_str(str::from_utf8(dst_bytes).unwrap())?;
+        let dst = Coord::from_str(str::from_utf8(dst_bytes).map_err(|_| RawParseError::Syntax)?)?;
 
         match bytes.len() {
             0 => Ok(Data::PawnMove { dst, promote }),
